@@ -17,7 +17,8 @@ EXPLANATION = (
     "wait_for_reception resets the flag and waits inside the condition and returns the timestamp iff a frame arrived; "
     "R4 transmit sends (cob_id, data) of the map; R5 a remote request is sent only under `enabled and rtr_allowed`, as "
     "a remote frame on the map's COB-ID; R6 mapped variables of a received frame read from pdo_parent.data (the object "
-    "the reception stores into)."
+    "the reception stores into); R7 a map's handler is registered once however often subscribe() runs (callbacks once per "
+    "frame); R8 remote and error frames are not delivered as data; R9 every variable write refreshes a running cyclic transmission."
 )
 ASSUMPTIONS = [
     "not decided: values and schedules; bit-field extraction is decided under C05",
@@ -135,6 +136,11 @@ def run(chk):
         v = repo.func(B, fq, "C15.R6")
         bufs = {src(n) for n in ast.walk(v.node) if isinstance(n, ast.Attribute) and n.attr == "data" and isinstance(n.value, ast.Attribute)}
         chk.check(bufs == {"self.pdo_parent.data"}, "R6", f"{B}:{fq} | reads/writes the parent map's data", v.loc(), f"{bufs}")
+    # ------------------------------------------------------------------ R7-R9 delivery once, data frames only, running task refreshed
+    from . import shared
+    shared.subscribe_once(chk, "R7")
+    shared.listener_filter(chk, "R8")
+    shared.setdata_updates_task(chk, "R9")
 
 
 def _blocks(fr, n, lab) -> bool:
